@@ -466,6 +466,33 @@ func (f *faultReader) Read(p []byte) (int, error) {
 }
 func (f *faultReader) Close() error { return nil }
 
+// pieceReader hands out its data in reads of 1, 2, 3, 1, 2, 3, ... bytes (at most 700 at a time for long bodies)
+type pieceReader struct {
+	data []byte
+	off  int
+	k    int
+}
+
+func (p *pieceReader) Read(b []byte) (int, error) {
+	if p.off >= len(p.data) {
+		return 0, io.EOF
+	}
+	p.k = p.k%3 + 1
+	n := p.k
+	if len(p.data) > 4096 {
+		n *= 233
+	}
+	if n > len(b) {
+		n = len(b)
+	}
+	if n > len(p.data)-p.off {
+		n = len(p.data) - p.off
+	}
+	copy(b, p.data[p.off:p.off+n])
+	p.off += n
+	return n, nil
+}
+
 // EscapePath spells an absolute path for the given concrete segments.
 func EscapePath(segs []string) string {
 	if len(segs) == 0 {
@@ -541,6 +568,26 @@ func (sb *Sandbox) Build(r *Req, variant int, tags func(class string) string) (*
 	relPath := ""
 	if target == "" {
 		target = Spell(sb.concSegs(r.P), sb.Style)
+		if sb.Style == 0 && (r.Pflag == "ok" || r.Pflag == "") && len(r.P) >= 1 && variant%5 == 4 {
+			// the same resource under a noisy but equivalent spelling: a trailing slash, an empty segment, a "." segment (never a
+			// leading "//", which would be another authority); the exact spelling is kept in the observation for replay
+			segs := sb.concSegs(r.P)
+			switch (variant / 5) % 3 {
+			case 0:
+				target = Spell(segs, 0) + "/"
+			case 1:
+				target = Spell(segs[:len(segs)-1], 0)
+				if target == "/" {
+					target = ""
+				}
+				target += "//" + url.PathEscape(segs[len(segs)-1])
+				if strings.HasPrefix(target, "//") {
+					target = "/." + target[1:]
+				}
+			default:
+				target = "/." + Spell(segs, 0)
+			}
+		}
 		switch r.Pflag {
 		case "nul":
 			target = Spell(sb.concSegs(r.P), 0) + "%00"
@@ -558,6 +605,7 @@ func (sb *Sandbox) Build(r *Req, variant int, tags func(class string) string) (*
 	var cancel context.CancelFunc
 	ctx := context.Background()
 	var fr *faultReader
+	pieces := int64(-1)
 	switch r.M {
 	case "PUT":
 		data := ContentBytes(r.C)
@@ -571,6 +619,11 @@ func (sb *Sandbox) Build(r *Req, variant int, tags func(class string) string) (*
 			body = fr
 		} else {
 			body = bytes.NewReader(data)
+			if r.Fmode == "" && variant%2 == 1 {
+				// the body arrives in several short reads (a chunked upload, several segments), never filling the server's buffer
+				body = &pieceReader{data: data}
+				pieces = int64(len(data))
+			}
 			if r.Fmode == "precancel" {
 				// the request's context is already cancelled when the handler starts; the body itself is intact
 				ctx, cancel = context.WithCancel(ctx)
@@ -599,6 +652,9 @@ func (sb *Sandbox) Build(r *Req, variant int, tags func(class string) string) (*
 	}
 	if fr != nil {
 		req.ContentLength = int64(len(fr.data))
+	}
+	if pieces >= 0 {
+		req.ContentLength = pieces
 	}
 	req = req.WithContext(ctx)
 	switch r.M {
